@@ -9,7 +9,7 @@ pub const DEF: PropDef = PropDef {
     id: "C01",
     rule: "programs generated from the control-flow grammar (literals, stack/arith words, if/else/then, case/of/endof/endcase, begin-until, begin-while-repeat, begin-repeat, do-loop with I/J/K, break, \
 definitions incl. redefinition/recursion/nesting, locals incl. re-initialisation in loops, global variables; empty bodies, zero-trip/negative/reversed ranges, wrong-typed conditions; random whitespace and comments; \
-1-3 eval calls) are run on the interpreter and on an independent tree-walking evaluator of the AST: data stack, every global variable, stdout, empty loop/return stacks on success; \
+1-3 submissions, each by eval, by compile + run, or compiled with recording on and driven k steps forward, 1-3 steps back and then run (output, which stepping back does not retract, is then not compared); a chunk that fails as the evaluator predicts is followed by the remaining chunks, which must start with no open loop or call) are run on the interpreter and on an independent tree-walking evaluator of the AST: data stack, every global variable, stdout, empty loop/return stacks on success; \
 same error kind at exactly the same token (and stack agreeing up to the failing word's arity) on failure; a structurally infinite loop must never fall through (bounded: 40*B+64 instructions, marker after the loop must not print). \
 Non-trivial = >=2 nested control constructs, or a loop with >=1 iteration, or a call; distinct = hash of the rendered sources",
     assumptions: &[
@@ -62,7 +62,10 @@ pub fn case(ch: &mut Choices, ctx: &CaseCtx) -> CaseOut {
     let opts = if ctx.tier_thorough { GenOpts::thorough() } else { GenOpts::quick() };
     let p = generate(ch, opts);
     let budget: u64 = if ctx.tier_thorough { 5_000 } else { 2_000 };
-    run_and_compare(&p, budget, &mut out);
+    // each chunk is submitted with eval or with compile + run
+    // (or compiled and driven like a debugger session: k steps forward, j back, then run - recording on)
+    let drive: Vec<(u8, usize, usize)> = (0..3).map(|_| (ch.weighted(&[3, 3, 2]) as u8, ch.below(40), 1 + ch.below(3))).collect();
+    run_and_compare(&p, budget, &drive, &mut out);
     // classification
     let f = &p.features;
     let nested = nesting_depth_prog(&p) >= 2;
@@ -72,7 +75,7 @@ pub fn case(ch: &mut Choices, ctx: &CaseCtx) -> CaseOut {
     }
     out.nontrivial = out.nontrivial || nested;
     if ctx.want_render || out.fail.is_some() {
-        out.render = Some(p.sources.iter().enumerate().map(|(i, s)| format!("eval #{}: {}", i, s.replace('\n', "\u{23ce}").replace('\r', "\u{240d}"))).collect::<Vec<_>>().join("\n"));
+        out.render = Some(p.sources.iter().enumerate().map(|(i, s)| format!("{} #{}: {}", match drive.get(i) { Some((1, _, _)) => "compile+run".to_string(), Some((2, f, b)) => format!("compile, record, {} steps forward, {} back, run", f, b), _ => "eval".to_string() }, i, s.replace('\n', "\u{23ce}").replace('\r', "\u{240d}"))).collect::<Vec<_>>().join("\n"));
     }
     out
 }
@@ -97,15 +100,41 @@ fn nesting_depth_prog(p: &Prog) -> usize {
 }
 
 /// Runs the program on the interpreter and the model, chunk by chunk.
-pub fn run_and_compare(p: &Prog, budget: u64, out: &mut CaseOut) {
+pub fn run_and_compare(p: &Prog, budget: u64, drive: &[(u8, usize, usize)], out: &mut CaseOut) {
     let mut xs = xs::fresh();
     let mut m = Model::new(p, budget);
     let insn_limit = (40 * budget + 64) as usize;
+    let mut failed_before = false;
     for c in 0..p.chunks.len() {
         xs.set_insn_limit(Some(insn_limit)).unwrap();
         xs.set_stack_limit(Some(2_000_000)).unwrap();
         let src = &p.sources[c];
-        let res = match guard(|| xs.eval(src)) {
+        let (mode, fwd, back) = drive.get(c).copied().unwrap_or((0, 0, 0));
+        // (after a failed chunk the log still holds the partial effects of the failed instruction; what a back-step
+        // does with them is not part of this property, so no stepping back from then on)
+        let mode = if mode == 2 && failed_before { 1 } else { mode };
+        if mode == 1 {
+            out.class("chunk-submitted-by-compile+run");
+        } else if mode == 2 {
+            out.class("chunk-stepped-forward-back-then-run");
+        }
+        xs.set_recording_enabled(mode == 2);
+        let res = match guard(|| match mode {
+            0 => xs.eval(src),
+            1 => xs.compile(src).and_then(|_| xs.run()),
+            _ => {
+                xs.compile(src)?;
+                let mut done = 0;
+                while done < fwd && xs.is_running() {
+                    xs.next()?;
+                    done += 1;
+                }
+                for _ in 0..back.min(done) {
+                    xs.rnext()?;
+                }
+                xs.run()
+            }
+        }) {
             Ok(r) => r,
             Err(pm) => {
                 out.fail(format!("panic: {}", pm), format!("while evaluating chunk {}", c));
@@ -205,11 +234,24 @@ pub fn run_and_compare(p: &Prog, budget: u64, out: &mut CaseOut) {
                     );
                     return;
                 }
-                if stdout != model_out {
+                if mode != 2 && stdout != model_out {
                     out.fail("output differs (failing program)", format!("chunk {}: model {:?}, interpreter {:?}", c, model_out, stdout));
                 }
                 compare_vars(p, &m, &xs, c, out);
-                return;
+                if out.fail.is_some() || c + 1 == p.chunks.len() {
+                    return;
+                }
+                // the next chunk starts from what the failed program left: its data stack, the variables, no open
+                // loop or call
+                match got.into_iter().collect::<Option<Vec<V>>>() {
+                    Some(st) => {
+                        failed_before = true;
+                        m.recover(st);
+                        out.class("chunk-after-a-failed-chunk");
+                        continue;
+                    }
+                    None => return,
+                }
             }
             (Outcome::Done, _) => {
                 if let Err(e) = &res {
@@ -225,7 +267,7 @@ pub fn run_and_compare(p: &Prog, budget: u64, out: &mut CaseOut) {
                     out.fail("data stack differs", format!("chunk {}: model [{}], interpreter [{}]", c, render_vs(&m.stack), xs::render_stack(&xs)));
                     return;
                 }
-                if stdout != model_out {
+                if mode != 2 && stdout != model_out {
                     out.fail("output differs", format!("chunk {}: model {:?}, interpreter {:?}", c, model_out, stdout));
                     return;
                 }
